@@ -6,9 +6,9 @@ import itertools
 import numpy as np
 
 from vcheck import gen
-from vcheck.core import cints, cmat, coq_eval, cten
+from vcheck.core import cints, cmat, coq_eval, cten, fl
 
-IMPORTS = "Model.QSMCore Model.General"
+IMPORTS = "Model.QSMCore Model.General Model.Reshape"
 
 
 def _cases(chk):
@@ -91,6 +91,18 @@ def impl_outputs(case):
                 tdense=np.asarray(A.T.to_dense()), shape=tuple(A.shape), tshape=tuple(A.T.shape))
 
 
+def nd_coq(arr):
+    """a numpy array of any rank as a term of Model/Reshape.v's nested-list type"""
+    arr = np.asarray(arr)
+    if arr.ndim == 0:
+        return f"(Sc {fl(float(arr))})"
+    return "(Ar [:: " + "; ".join(nd_coq(a) for a in arr) + "])" if len(arr) else "(Ar [::])"
+
+
+def nd_rows(arr):
+    return "[:: " + "; ".join(nd_coq(a) for a in np.asarray(arr)) + "]"
+
+
 def g_impl(gc):
     import jax.numpy as jnp
     from tinygp.solvers.quasisep.general import GeneralQSM
@@ -130,7 +142,11 @@ def run(chk):
         cc = x2.shape[1]
         r = c["xl"].shape[0]
         exprs.append(f"flatten (qdense K {A})")
-        exprs.append(f"flatten (qmatmul K {cc} {A} {cmat(x2)})")
+        if c["x"].ndim > 2:   # rank >= 3: through the model of the reshape wrapper (Model/Reshape.v), rows as nested lists
+            ds = "[:: " + "; ".join(str(v) for v in c["x"].shape[1:]) + "]%nat"
+            exprs.append(f"flatten (map (@flat float) (wrap K (qmatmul K {cc} {A}) {ds} {nd_rows(c['x'])}))")
+        else:
+            exprs.append(f"flatten (qmatmul K {cc} {A} {cmat(x2)})")
         exprs.append(f"flatten (qrmatmul K {r} {cmat(c['xl'])} {A})")
         exprs.append(f"flatten (qrmatmul K 1 {cmat(c['xl'][:1])} {A})")      # a 1-D vector on the left
         exprs.append(f"flatten (qdense K (qtranspose {A}))")
@@ -140,6 +156,15 @@ def run(chk):
         exprs.append(f"flatten (gmatmul K {gc['x'].shape[1]} {G} {cmat(gc['x'])})")
         exprs.append(f"flatten (gmatmul K {gc['g']['n2']} {G} (lid K {gc['g']['n2']}))")
         exprs.append(f"[:: (gshape {G}).1; (gshape {G}).2]")
+    # the rectangular form with right-hand sides of rank 3 and 4, through the model of the reshape wrapper
+    gextra = []
+    for gi, gc in enumerate(gcases):
+        G = g_coq(gc["g"])
+        for tail in ((2, 3), (2, 1, 3)):
+            xr = gimpl[gi]["extra"][str(tail)][0]
+            ds = "[:: " + "; ".join(str(v) for v in tail) + "]%nat"
+            exprs.append(f"flatten (map (@flat float) (wrap K (gmatmul K {int(np.prod(tail))} {G}) {ds} {nd_rows(xr)}))")
+            gextra.append((gi, tail))
     model = coq_eval("c04", IMPORTS, exprs)
 
     # ---- compare model vs implementation (exact) and implementation vs documented formula (oracle)
@@ -197,6 +222,13 @@ def run(chk):
                                    observed=list(im["shape"])))
         distinct.add(("General", g["n1"], g["n2"], tuple(g["idx"].tolist()), M.tobytes()))
         hist["General"] = hist.get("General", 0) + 1
+    # model of the reshape wrapper (Model/Reshape.v) around the rectangular product vs the implementation, rank 3 and 4, exact
+    for (gi, tail), m_ in zip(gextra, model[k:k + len(gextra)]):
+        got1 = gimpl[gi]["extra"][str(tail)][1]
+        if not np.array_equal(np.asarray(m_, float).ravel(), np.asarray(got1, float).ravel()):
+            corr_bad.append(dict(op=f"general.matmul through the reshape wrapper, trailing shape {tail}", g=gen.spec_json(gcases[gi]["g"]),
+                                 x=gimpl[gi]["extra"][str(tail)][0].tolist(), model=list(m_), impl=np.asarray(got1).ravel().tolist()))
+    k += len(gextra)
 
     chk.cov["evaluations"] = len(cases) * 6 + len(gcases) * 3
     chk.cov["distinct_nontrivial"] = len(distinct)
